@@ -29,7 +29,7 @@ type Desc struct {
 	SS    float64 // sum (x-mean)^2
 	SumSq float64 // sum x^2
 
-	NonPos     bool    // some value (of any weight) is <= 0
+	NonPos     bool    // some value of non-zero weight is <= 0
 	Geo        float64 // exp(sum w ln x / W); NaN when NonPos or W == 0
 	MeanAbsLog float64 // sum w|ln x| / W, float64 arithmetic (tolerances only)
 
@@ -63,7 +63,8 @@ func describe(xs, ws []float64, logPath bool) *Desc {
 		sumAbs.Add(sumAbs, Abs(p))
 		W.Add(W, bw)
 		sumSq.Add(sumSq, Mul(bx, bx))
-		if x <= 0 {
+		if x <= 0 && w != 0 {
+			// a zero-weight value is not part of the (repeated) sample
 			d.NonPos = true
 		}
 		if w != 0 {
@@ -108,8 +109,8 @@ func describe(xs, ws []float64, logPath bool) *Desc {
 				}
 				if k > 0 {
 					P = Mul(P, PowInt(NF(x), k))
+					mal += float64(k) * math.Abs(math.Log(x))
 				}
-				mal += float64(k) * math.Abs(math.Log(x))
 			}
 			L = Quo(Log(P), W)
 		} else {
@@ -122,7 +123,9 @@ func describe(xs, ws []float64, logPath bool) *Desc {
 				if w != 0 {
 					s.Add(s, Mul(NF(w), Log(NF(x))))
 				}
-				mal += w * math.Abs(math.Log(x))
+				if w != 0 {
+					mal += w * math.Abs(math.Log(x))
+				}
 			}
 			L = Quo(s, W)
 		}
